@@ -8,7 +8,8 @@ LEAN_TARGETS = ["Rsp.Props.C11"]
 THEOREMS = ["Rsp.Props.C11.internalSendrq_preserves", "Rsp.Props.C11.internalSendrq_places", "Rsp.Props.C11.internalSendrq_frame",
             "Rsp.Props.C11.scanSlots_preserves", "Rsp.Props.C11.scanSlots_range", "Rsp.Props.C11.scanSlots_frame",
             "Rsp.Props.C11.sendrqPlace_preserves", "Rsp.Props.C11.sendrq_never_displaces",
-            "Rsp.Props.C11.sendrqPlace_reserves_zero", "Rsp.Props.C11.sendrqPlace_probe_only_zero"]
+            "Rsp.Props.C11.sendrqPlace_reserves_zero", "Rsp.Props.C11.sendrqPlace_probe_only_zero",
+            "Rsp.Props.C11.cancel_unqueued_touches_no_server", "Rsp.Props.C11.cancel_releases_only_its_own"]
 RULE = ("histories through the real sendrq/_internal_sendrq/replyh/clientwr: bursts of more than 256 concurrent requests from several clients to one server, "
         "cursor wrap-around, replies / expiry / supersession releasing identifiers in random order, Status-Server probes, all four status-server modes incl. the run-time "
         "AUTO transitions; compared on (identifier -> request) tables, the allocation cursor and the identifier octet of each forwarded packet. "
@@ -17,7 +18,7 @@ EXHAUSTIVE = {}
 ASSUMPTIONS = ["one writer per server (the slot lock and the global sendrq lock serialise queueing; interleavings are C17's subject)"]
 LEVEL_TEXT = ("Lean 4 theorems for EVERY state of the World model: sendrq never changes an identifier that is held (sendrq_never_displaces), a successful placement "
               "takes an identifier that was free (internalSendrq_places), scans only report identifiers inside their range, identifier 0 is left untouched by anything but a "
-              "Status-Server probe while status-server is enabled and a probe touches nothing else (sendrqPlace_reserves_zero / _probe_only_zero). Since slot index = "
+              "Status-Server probe while status-server is enabled and a probe touches nothing else (sendrqPlace_reserves_zero / _probe_only_zero). Giving a request up releases the identifier it holds itself and no other - none at all when it was never queued (cancel_releases_only_its_own, cancel_unqueued_touches_no_server). Since slot index = "
               "identifier, pairwise distinctness follows. Tied to the code by differential histories with > 256 concurrent requests, cursor wrap and all modes.")
 LEVEL_NOTE = "Trusted: Lean kernel + std axioms, harness, generators. Modelled: sendrq, _internal_sendrq, freerqoutdata, replyh slot lookup. Locking is not modelled here."
 TECHNIQUE = "Lean 4 proof (frame/preservation lemmas over the slot table, induction over the scans) + differential histories"
